@@ -16,6 +16,7 @@ LEVEL_TEXT = ("Index-space typestate analysis on the MIR (E3.x): every query, ca
 LEVEL_NOTE = ("Not decided: that tree-sitter reports the matches it should, the document order of list captures (tree-sitter's iterator "
               "order is trusted), and the per-match values.")
 LEVEL_TEXT += (' Also: (C03.C) a capture evaluates to Value::from_nodes(graph, mat.nodes_for_capture_index(index), quantifier) in both modes and no query cursor is restricted; (C03.V) the public match visitors expose all named captures, filtering only the internal full-match capture; (E5.q) File.stanzas is push-only by the parser and no compiled Query is mutated (disable_capture/disable_pattern), with a positive control in the control crate.')
+LEVEL_TEXT += (' The stanza-level full-match lookup is `nodes_for_capture_index(index).next()` failing only on no node (E2.x-c slice): a stricter lookup would skip matches of grouped patterns.')
 
 S_FIELDS = {"stanza_capture_index", "full_match_stanza_capture_index"}
 F_FIELDS = {"file_capture_index", "full_match_file_capture_index"}
@@ -350,6 +351,16 @@ def capture_and_cursor(prog, rep):
     rep.floor("C03.C", ncur, 2, "query cursors")
 
 
+def full_match_lookup(prog, rep):
+    """the stanza's block runs for every match: the lookup of the internal full-match node takes the *first* node of that capture and
+    fails only when there is none (C20's E2.x-c slice; a lookup that wants exactly one node skips matches of grouped patterns)"""
+    from . import C20
+    from ..lib.report import Filtered
+    nb = len(rep.items)
+    C20.run(prog, Filtered(rep, lambda rule, key: rule == "E2.x-c" and key.endswith(":: context creation")))
+    rep.floor("E2.x-c", len(rep.items) - nb, 2, "stanza-level full-match lookups")
+
+
 def run(prog, rep):
     index_space(prog, rep)
     tg = Tagger(prog)
@@ -462,6 +473,7 @@ def run(prog, rep):
     rep.floor("E5.q", nq, 1, "mutations of File.stanzas (the parser's push)")
     # driver: once per match
     e3_driver.run_driver(prog, rep, rule="C01.D")
+    full_match_lookup(prog, rep)
     # from_nodes
     rep.rule("C03.Q", "Value::from_nodes: One -> the first node, ZeroOrOne -> null or the node, ZeroOrMore/OneOrMore -> nodes.map(add_syntax_node).collect() in iterator order")
     fn = [f for f in prog.shape_fns() if f.name == "from_nodes" and f.self_path == "tsg::graph::Value"]
